@@ -1,6 +1,16 @@
 #!/usr/bin/env python3
-import json, glob, jsonschema
-jsonschema.validate(json.load(open('/verif/MANIFEST.json')), json.load(open('/root/.vp/MANIFEST.schema.json')))
-for p in glob.glob('/verif/evidence/*.json'):
-    jsonschema.validate(json.load(open(p)), json.load(open('/root/.vp/EVIDENCE.schema.json')))
+import json, glob, sys, jsonschema
+m = json.load(open('/verif/MANIFEST.json'))
+jsonschema.validate(m, json.load(open('/root/.vp/MANIFEST.schema.json')))
+bad = 0
+for p in sorted(glob.glob('/verif/evidence/*.json')):
+    d = json.load(open(p))
+    jsonschema.validate(d, json.load(open('/root/.vp/EVIDENCE.schema.json')))
+    c = d.get('coverage', {})
+    # the committed evidence must be the record of a clean run on the unchanged tree
+    if c.get('obligations') != c.get('discharged') or c.get('violations') or c.get('undecided'):
+        print('STALE/UNCLEAN evidence:', p, c.get('obligations'), c.get('discharged'), c.get('violations'))
+        bad += 1
+if bad:
+    sys.exit(1)
 print('manifest and evidence valid')
